@@ -22,6 +22,8 @@ CONSTANTS
   ChanTO = 30
   MaxLife = 3600
   Denied <- MCNoDenied
+  Toks = {"none"}
+  ResvTO = 30
   HasAuth = FALSE
   CredKinds <- MCCredKinds
   Methods <- MCMethods
